@@ -369,3 +369,46 @@ package coordinator
 //@   callee_requires_assumed
 //@   call ShardGroupInfo.ShardFor#1 requires group_designates_the_points_time: sg != nil && designates_ns(sg, pt)
 //@   call ShardGroupInfo.ShardFor#1 requires a_point_older_than_the_retention_period_is_dropped: pt >= nanos(min)
+
+// ---- C05: a metadata lookup that fans out to every data node never returns a silently incomplete result ----
+// ExecuteQuery reports the first error of the local lookup or of any remote node next to the partial results.
+// The statement demands that such a lookup fails rather than answer with what the reachable nodes hold.
+// (Recorded as known findings: the fork discards the error on purpose, see /verif/known_findings.json.)
+//@ func (*MetaExecutor).ExecuteQuery
+//@   assumed
+//@   modifies nothing
+
+//@ func (ClusterTSDBStore).MeasurementNames
+//@   props C05
+//@   nosafety
+//@   ghost fan_out_failed bool = false
+//@   at after MetaExecutor.ExecuteQuery#1: ghost fan_out_failed = callresult1 != nil
+//@   ensures never_silently_incomplete: fan_out_failed ==> result1 != nil
+
+//@ func (ClusterTSDBStore).TagKeys
+//@   props C05
+//@   nosafety
+//@   ghost fan_out_failed bool = false
+//@   at after MetaExecutor.ExecuteQuery#1: ghost fan_out_failed = callresult1 != nil
+//@   ensures never_silently_incomplete: fan_out_failed ==> result1 != nil
+
+//@ func (ClusterTSDBStore).TagValues
+//@   props C05
+//@   nosafety
+//@   ghost fan_out_failed bool = false
+//@   at after MetaExecutor.ExecuteQuery#1: ghost fan_out_failed = callresult1 != nil
+//@   ensures never_silently_incomplete: fan_out_failed ==> result1 != nil
+
+//@ func (ClusterTSDBStore).SeriesCardinality
+//@   props C05
+//@   nosafety
+//@   ghost fan_out_failed bool = false
+//@   at after MetaExecutor.ExecuteQuery#1: ghost fan_out_failed = callresult1 != nil
+//@   ensures never_silently_incomplete: fan_out_failed ==> result1 != nil
+
+//@ func (ClusterTSDBStore).MeasurementsCardinality
+//@   props C05
+//@   nosafety
+//@   ghost fan_out_failed bool = false
+//@   at after MetaExecutor.ExecuteQuery#1: ghost fan_out_failed = callresult1 != nil
+//@   ensures never_silently_incomplete: fan_out_failed ==> result1 != nil
